@@ -58,8 +58,8 @@ SCOPES = ['CLASS', 'ASSOCIATION', 'INDICATION', 'PROPERTY', 'REFERENCE', 'METHOD
 NAME_POOL = ['Foo', 'foo', 'Bar', 'CIM_Thing', 'cim_thing', 'X', 'y', 'Name_1', 'InstanceID', 'instanceid', 'Key',
              'A_b_C', 'Ärger', 'äRGER', 'Straße', 'STRAẞE', 'strasse', 'İx', 'i̇x',
              'Kelvin', 'kelvin', 'µm', 'σς', 'Zz9']
-HOSTS = [None, None, 'acme.com', 'ACME.com', 'acme.com:5989', '[::1]:5988', '10.0.0.1']
-NAMESPACES = [None, None, 'root/cimv2', 'Root/CIMv2', 'interop', 'root/Ä']
+HOSTS = [None, None, 'acme.com', 'ACME.com', 'acme.com:5989', '[::1]:5988', '10.0.0.1', '']
+NAMESPACES = [None, None, 'root/cimv2', 'Root/CIMv2', 'interop', 'root/Ä', '', '/']   # '/' is stripped to ''
 STRINGS = ['', 'a', 'A', 'abc', 'ABC', 'x y', 'ä', 'Straße', '42', 'true']
 DATETIMES = ['20180911124613.128000+000', '20180911124613.128***+000', '20180911134613.128000+060',
              '20180911124613.128000+060', '20180911124613.******+000', '20180911124613.000000+000',
@@ -69,7 +69,11 @@ DATETIMES = ['20180911124613.128000+000', '20180911124613.128***+000', '20180911
 
 
 def pyw():
+    """pywbem, with NULL key values allowed (documented config variable IGNORE_NULL_KEY_VALUE) for the whole run, so
+    that instance paths / dicts holding None values are built, compared and copied"""
     import pywbem
+    import pywbem.config
+    pywbem.config.IGNORE_NULL_KEY_VALUE = True
     return pywbem
 
 
@@ -112,6 +116,10 @@ def build_value(v):
 
 def build(spec):
     """real pywbem object of a spec; raises whatever the constructors raise for an invalid combination"""
+    return _build(spec)
+
+
+def _build(spec):
     P = pyw()
     k = spec['K']
     if k == 'CIMDateTime':
@@ -293,6 +301,12 @@ def g_name(rng):
     return rng.choice(NAME_POOL)
 
 
+def g_optname(rng):
+    """an optional name attribute: mostly None, sometimes a name, sometimes the empty string (which is NOT None)"""
+    r = rng.random()
+    return None if r < 0.55 else '' if r < 0.63 else g_name(rng)
+
+
 def g_scalar(rng, t, depth=0):
     if t == 'string':
         return {'V': 'str', 's': rng.choice(STRINGS)}
@@ -319,7 +333,9 @@ def g_scalar(rng, t, depth=0):
     raise ValueError(t)
 
 
-def g_keyvalue(rng, depth):
+def g_keyvalue(rng, depth, allow_none=True):
+    if allow_none and rng.random() < 0.08:
+        return None                 # NULL key value (config.IGNORE_NULL_KEY_VALUE) / None value of a NocaseDict
     r = rng.random()
     if r < 0.30:
         return {'V': 'str', 's': rng.choice(STRINGS)}
@@ -372,7 +388,7 @@ def g_typed_value(rng, depth, allow_ref=True, allow_emb=True):
     emb, refcls = None, None
     if allow_ref and r < 0.10 and depth > 0:
         t = 'reference'
-        refcls = rng.choice([None, g_name(rng)])
+        refcls = g_optname(rng)
     elif allow_emb and r < 0.22 and depth > 0:
         t = 'string'
         emb = rng.choice(['instance', 'object'])
@@ -416,7 +432,7 @@ def g_children(rng, gen, lo_hi=(0, 3)):
 def g_property(rng, depth=1):
     t, v, is_array, emb, refcls = g_typed_value(rng, depth)
     return {'K': 'CIMProperty', 'name': g_name(rng), 'value': v, 'type': t,
-            'class_origin': rng.choice([None, None, g_name(rng)]),
+            'class_origin': g_optname(rng),
             'array_size': rng.choice([None, None, 5]) if is_array else None,
             'propagated': g_flag(rng), 'is_array': is_array, 'reference_class': refcls,
             'qualifiers': g_children(rng, lambda: g_qualifier(rng), (0, 2)), 'embedded_object': emb}
@@ -432,7 +448,7 @@ def g_parameter(rng, depth=1):
 def g_method(rng, depth=1):
     return {'K': 'CIMMethod', 'name': g_name(rng), 'return_type': rng.choice(SCALAR_TYPES),
             'parameters': g_children(rng, lambda: g_parameter(rng, depth - 1), (0, 3)),
-            'class_origin': rng.choice([None, None, g_name(rng)]), 'propagated': g_flag(rng),
+            'class_origin': g_optname(rng), 'propagated': g_flag(rng),
             'qualifiers': g_children(rng, lambda: g_qualifier(rng), (0, 2))}
 
 
@@ -447,14 +463,14 @@ def g_class(rng, depth=1):
     return {'K': 'CIMClass', 'classname': g_name(rng),
             'properties': g_children(rng, lambda: g_property(rng, depth), (0, 3)),
             'methods': g_children(rng, lambda: g_method(rng, depth), (0, 2)),
-            'superclass': rng.choice([None, g_name(rng)]),
+            'superclass': g_optname(rng),
             'qualifiers': g_children(rng, lambda: g_qualifier(rng), (0, 2)),
             'path': g_classname(rng) if rng.random() < 0.4 else None}
 
 
 def g_qualifierdecl(rng):
     t, v, is_array, _, _ = g_typed_value(rng, 0, allow_ref=False, allow_emb=False)
-    scopes = [[s if rng.random() < 0.7 else s.lower(), rng.random() < 0.7]
+    scopes = [[s if rng.random() < 0.7 else s.lower(), rng.choice([True, True, True, False, None])]
               for s in rng.sample(SCOPES, rng.choice([0, 1, 2, 3]))]
     return {'K': 'CIMQualifierDeclaration', 'name': g_name(rng), 'type': t, 'value': v, 'is_array': is_array,
             'array_size': rng.choice([None, None, 5]) if is_array else None, 'scopes': scopes,
@@ -633,6 +649,10 @@ def v_mutate(rng, spec):
         opts = [(v or '') + 'x', g_name(rng)]
         if f not in ('classname', 'name'):
             opts.append(None if v is not None else 'added')
+            opts.append('' if v is None else None)        # empty string vs None: different attribute values
+            if f == 'namespace':
+                opts.append('/' if v is None else None)   # normalised to ''
+
         n[f] = rng.choice(opts)
     elif f in FLAG_ATTRS:
         n[f] = rng.choice([x for x in (None, True, False) if x is not v])
@@ -654,7 +674,14 @@ def v_mutate(rng, spec):
     elif f in ('keybindings', 'items'):
         kb = list(v or [])
         r = rng.random()
-        if kb and r < 0.3:
+        named = [i for i, kv in enumerate(kb) if kv[0] is not None]
+        if named and r < 0.25:
+            # same value under ANOTHER key (a missing key must not look like a key holding None)
+            i = rng.choice(named)
+            used = {kv[0].casefold() for kv in kb if kv[0] is not None}
+            cands = [nm for nm in NAME_POOL if nm.casefold() not in used] or [kb[i][0] + 'X']
+            kb[i] = [rng.choice(cands), kb[i][1]]
+        elif kb and r < 0.4:
             kb.pop(rng.randrange(len(kb)))
         elif kb and r < 0.7:
             i = rng.randrange(len(kb))
@@ -664,9 +691,14 @@ def v_mutate(rng, spec):
         n[f] = kb
     elif f == 'scopes':
         sc = list(v or [])
-        if sc and rng.random() < 0.5:
+        r = rng.random()
+        if sc and r < 0.25:
             i = rng.randrange(len(sc))
-            sc[i] = [sc[i][0], not sc[i][1]]
+            used = {x[0].casefold() for x in sc}
+            sc[i] = [rng.choice([x for x in SCOPES if x.casefold() not in used] or ['FOO']), sc[i][1]]
+        elif sc and r < 0.6:
+            i = rng.randrange(len(sc))
+            sc[i] = [sc[i][0], rng.choice([x for x in (True, False, None) if x is not sc[i][1]])]
         else:
             sc.append(['FOO%d' % len(sc), True])
         n[f] = sc
@@ -1065,6 +1097,7 @@ def run(run):
                 'copy per site outside the documented shared set and comparison of the original with its snapshot. '
                 'non-trivial = at least one pair equal and one unequal (cmp) / object has a mutable child (copy); distinct = distinct spec JSON')
     run.assumptions += [
+        'pywbem.config.IGNORE_NULL_KEY_VALUE = True during the run (NULL key values are generated)',
         'str.lower/str.casefold: concrete model implementation (ASCII, Latin-1, ẞ, İ, Kelvin sign, µ, ς) agrees with CPython '
         'on the generated alphabet (checked by K through every comparison); theorems hold for ANY lower/casefold',
         'builtin hash() of str/int/float/bool/datetime/timedelta/tuple/frozenset is a function of the value '
